@@ -42,6 +42,7 @@ TRUSTED = ["hash functions: arbitrary Section variables hasher_ok/hash (no law a
            "decoders are prefix-deterministic and report a read error met at the end of the stream (definition stream_dec); exercised by a read error injected at every offset",
            "an empty read (0, nil) does not change what a decoder sees (the model's reader is the concatenation of its chunks): FALSE for refmt's byte reader on the pinned tree — known finding empty_read_mid_block, flagged by the oracle; exercised at every byte position",
            "the NodeReifier is handed the link system the call was made on (definition reifier_handle); exercised by the reify records (TrustedStorage of the handle and every load through it are observed)",
+           "large blocks (1-16 MiB) travel under run-length NAMES (harness/lib/link_big.go): the model is run on the names with hash tables keyed by names; sound because the model is parametric in the hash and touches such blocks only through hash, equality and codec (raw: concrete model on names; dag-cbor: tables for these records)",
            "go-cid / go-multihash / go-varint (Prefix, NewCidV0/V1, Encode, PutUvarint), io.TeeReader / io.MultiWriter / io.Copy: hand-modelled in coq/Link/LinkSys.v; tied by correspondence only",
            "refmt v0.90 CBOR encoder/tokenizer: hand-modelled in coq/Codec/Cbor.v; tied by correspondence only"]
 RULE = ("corpus of encoded blocks (fixed blocks per codec x hash, then generated values in each codec's domain, <= 64 bytes "
